@@ -83,6 +83,12 @@ func Junk(r *core.Rand, cfg *JunkCfg, n int, eol string) string {
 				b.WriteString("progress 50%\r" + eol)
 			}
 		}
+		if cfg.Separators && r.Chance(1, 12) {
+			// the two opening lines of a race report, indented as a whole: not a report by the documented format
+			// (only goroutine dumps carry an indentation), so plain text - whatever follows
+			ind := r.Pick([]string{" ", "\t", "    "})
+			b.WriteString(ind + "==================" + eol + ind + "WARNING: DATA RACE" + eol)
+		}
 		b.WriteString(JunkLine(r, cfg))
 		if cfg.MixedEOL && r.Chance(1, 4) {
 			if eol == "\n" {
